@@ -1,4 +1,345 @@
-import BoltonsVerif.C02.Proofs
+import BoltonsVerif.C02.Facts
+/-
+C02 — property theorems for the LRI / LRU model (statements, short derivations from
+`Proofs` / `Refine` / `Facts`, non-vacuity examples).
+
+Histories are lists of world operations `WOp` (a dict-API call on cache number i, or
+`==` / `!=` between two caches); cache 0 is the freshly constructed cache (a constructor
+call with `values=…` is the history that starts with `update`), every `copy()` adds a
+cache.  `reach … ops` is the world after the history, so "for all ops" is "after every
+step of every history".  `max ≥ 1` is what the constructor enforces.
+-/
 namespace C02
-theorem placeholder_partial : True := trivial
+variable {K V : Type} [DecidableEq K] [DecidableEq V]
+
+/-- the caches that exist after history `ops` on a fresh `LRI`/`LRU(max_size=max, on_miss=om)` -/
+abbrev reach (lru : Bool) (max : Nat) (om : Option (K → V)) (ops : List (WOp K V)) : List (Cache K V) :=
+  wrun [Cache.init lru max om] ops
+
+/-- the same history on the reference cache of the statement (`Spec.lean`) -/
+abbrev refReach (lru : Bool) (max : Nat) (om : Option (K → V)) (ops : List (WOp K V)) : List (Ref K V) :=
+  Ref.wrun [Ref.init lru max om] ops
+
+/-! ### refinement: the cache behaves like the reference cache -/
+
+/-- after every history the caches simulate the reference caches (same contents in the same
+    dict order, same counters, ring = contents in stamp order) -/
+theorem refines_ref (lru : Bool) (max : Nat) (hmax : 1 ≤ max) (om : Option (K → V)) (ops : List (WOp K V)) :
+    WSim (reach lru max om ops) (refReach lru max om ops) :=
+  ((WSim.single (Sim.init lru max om hmax)).run ops).1
+
+/-- contents (and iteration order) of every cache equal those of the reference cache, in which a
+    new key entering a full cache evicts exactly the key whose latest insertion-or-assignment
+    (LRI) / insertion, assignment or successful lookup (LRU) is oldest -/
+theorem contents_eq_ref (lru : Bool) (max : Nat) (hmax : 1 ≤ max) (om : Option (K → V)) (ops : List (WOp K V)) :
+    (reach lru max om ops).map (·.d) = (refReach lru max om ops).map (·.ents) :=
+  (refines_ref lru max hmax om ops).contents
+
+/-- every call returns what the reference cache returns (value, KeyError, item, bool, length,
+    iteration order; for copy(): "a new cache") -/
+theorem results_eq_ref (lru : Bool) (max : Nat) (hmax : 1 ≤ max) (om : Option (K → V)) (ops : List (WOp K V)) :
+    (wouts [Cache.init lru max om] ops).map Out.shape =
+    (Ref.wouts [Ref.init lru max om] ops).map Out.shape :=
+  ((WSim.single (Sim.init lru max om hmax)).run ops).2
+
+/-- hit / miss / soft-miss counters and the record of on_miss calls equal the reference's -/
+theorem counters_eq_ref (lru : Bool) (max : Nat) (hmax : 1 ≤ max) (om : Option (K → V)) (ops : List (WOp K V)) :
+    (reach lru max om ops).map (fun c => (c.hit, c.miss, c.soft, c.omLog)) =
+    (refReach lru max om ops).map (fun s => (s.hit, s.miss, s.soft, s.omLog)) :=
+  (refines_ref lru max hmax om ops).counters
+
+/-- the reference's eviction victim really is a stored key with the smallest stamp -/
+theorem ref_victim_is_oldest (stamp : K → Nat) (l : List K) (m : K) (h : oldest stamp l = some m) :
+    m ∈ l ∧ ∀ k ∈ l, stamp m ≤ stamp k := by
+  induction l generalizing m with
+  | nil => simp [oldest] at h
+  | cons x xs ih =>
+    simp only [oldest] at h
+    split at h
+    · rename_i hn
+      have : xs = [] := by
+        cases xs with
+        | nil => rfl
+        | cons y ys =>
+          simp only [oldest] at hn
+          split at hn
+          · simp at hn
+          · split at hn <;> simp at hn
+      simp at h; subst h this; simp
+    · rename_i m' hm'
+      have := ih m' hm'
+      split at h
+      · rename_i hle
+        simp at h; subst h
+        refine ⟨by simp, fun k hk => ?_⟩
+        simp only [List.mem_cons] at hk
+        rcases hk with rfl | hk
+        · exact Nat.le_refl _
+        · exact Nat.le_trans hle (this.2 k hk)
+      · rename_i hle
+        simp at h; subst h
+        refine ⟨List.mem_cons_of_mem _ this.1, fun k hk => ?_⟩
+        simp only [List.mem_cons] at hk
+        rcases hk with rfl | hk
+        · omega
+        · exact this.2 k hk
+
+/-- the ring of every cache is its contents in the order of the reference's stamps (oldest
+    first): the ring head is the key whose latest insertion / assignment / (LRU) lookup is oldest -/
+theorem ring_is_recency_order (lru : Bool) (max : Nat) (hmax : 1 ≤ max) (om : Option (K → V))
+    (ops : List (WOp K V)) (c : Cache K V) (hc : c ∈ reach lru max om ops) :
+    ∃ s ∈ refReach lru max om ops, c.d = s.ents ∧ c.ring.Perm s.ents ∧
+      c.ring.Pairwise (fun a b => s.stamp a.1 < s.stamp b.1) := by
+  obtain ⟨s, hs, h⟩ := (refines_ref lru max hmax om ops).of_mem hc
+  exact ⟨s, hs, h.d, h.d ▸ h.inv.sync.perm.symm, h.sorted⟩
+
+/-! ### capacity and the three structures staying in step -/
+
+/-- the representation invariant holds in every reachable cache -/
+theorem reachable_inv (lru : Bool) (max : Nat) (hmax : 1 ≤ max) (om : Option (K → V))
+    (ops : List (WOp K V)) (c : Cache K V) (hc : c ∈ reach lru max om ops) : Inv c := by
+  obtain ⟨s, _, h⟩ := (refines_ref lru max hmax om ops).of_mem hc
+  exact h.inv
+
+/-- class, capacity and on_miss of every cache of the world (copies included) are the
+    constructor's -/
+theorem config_constant (lru : Bool) (max : Nat) (om : Option (K → V)) (ops : List (WOp K V))
+    (c : Cache K V) (hc : c ∈ reach lru max om ops) : c.lru = lru ∧ c.max = max ∧ c.onMiss = om := by
+  have := wrun_config (w := [Cache.init lru max om]) (cfg := (lru, max, om))
+    (by intro c hc; simp at hc; subst hc; rfl) ops c hc
+  simp only [Cache.config, Prod.mk.injEq] at this
+  exact this
+
+/-- an LRI / LRU never holds more than max_size items -/
+theorem size_le_max (lru : Bool) (max : Nat) (hmax : 1 ≤ max) (om : Option (K → V))
+    (ops : List (WOp K V)) (c : Cache K V) (hc : c ∈ reach lru max om ops) : c.d.length ≤ max := by
+  have h := (reachable_inv lru max hmax om ops c hc).cap
+  rwa [(config_constant lru max om ops c hc).2.1] at h
+
+/-- dict, key->link table and ring describe the same mapping: same keys without duplicates,
+    same values, and the ring is a permutation of the dict items -/
+theorem ring_perm_keys (lru : Bool) (max : Nat) (hmax : 1 ≤ max) (om : Option (K → V))
+    (ops : List (WOp K V)) (c : Cache K V) (hc : c ∈ reach lru max om ops) :
+    c.ring.Perm c.d ∧ (keys c.ring).Nodup ∧ (keys c.d).Nodup ∧ ∀ k, lookup k c.d = lookup k c.ring := by
+  have h := (reachable_inv lru max hmax om ops c hc).sync
+  exact ⟨h.perm.symm, h.nr, h.nd, h.agree⟩
+
+/-! ### lookups: results, counters, on_miss  (`c` is any cache satisfying the invariant, e.g.
+    any reachable one by `reachable_inv`) -/
+
+/-- a key that is not in the cache (never inserted, evicted or removed) is never returned:
+    without on_miss, `c[k]` raises KeyError and get / setdefault answer with the caller's
+    default; that is one miss and, for get / setdefault, one soft miss -/
+theorem absent_not_returned {c : Cache K V} (hi : Inv c) {op : Op K V} {k : K}
+    (hop : op.lookupKey = some k) (hk : lookup k c.d = none) (hom : c.onMiss = none) :
+    (step c op).2 = (match op.dflt with | some d => .val d | none => .keyError) ∧
+    (step c op).1.hit = c.hit ∧ (step c op).1.miss = c.miss + 1 ∧
+    (step c op).1.soft = c.soft + (if op.dflt.isSome then 1 else 0) ∧ (step c op).1.omLog = c.omLog :=
+  step_lookup_absent hi hop hk hom
+
+/-- … and `in`, `pop` do not find it either -/
+theorem absent_not_found (c : Cache K V) {k : K} (hk : lookup k c.d = none) (d : Option V) :
+    (step c (.contains k)).2 = .bool false ∧
+    (step c (.pop k d)).2 = (match d with | some v => .val v | none => .keyError) ∧
+    (step c (.delitem k)).2 = .keyError := by
+  simp only [step, hk]
+  cases d <;> simp
+
+/-- removed keys are gone: after `del c[k]` / `c.pop(k)` the key is absent, other keys are untouched -/
+theorem removed_is_absent {c : Cache K V} (hi : Inv c) (k : K) (d : Option V) :
+    lookup k (step c (.delitem k)).1.d = none ∧ lookup k (step c (.pop k d)).1.d = none ∧
+    ∀ k', k' ≠ k → lookup k' (step c (.delitem k)).1.d = lookup k' c.d ∧
+                   lookup k' (step c (.pop k d)).1.d = lookup k' c.d := by
+  simp only [step]
+  cases hk : lookup k c.d with
+  | none => cases d <;> simp [hk]
+  | some v =>
+    simp only []
+    exact ⟨remove_absent hi k, remove_absent hi k, fun k' h => ⟨remove_others k h, remove_others k h⟩⟩
+
+/-- `popitem()` returns an item of the cache and removes exactly that key -/
+theorem popitem_removes {c : Cache K V} (hi : Inv c) {k : K} {v : V}
+    (h : (step c .popitem).2 = .item k v) :
+    lookup k c.d = some v ∧ lookup k (step c .popitem).1.d = none ∧
+    (∀ k', k' ≠ k → lookup k' (step c .popitem).1.d = lookup k' c.d) := by
+  simp only [step] at h ⊢
+  cases hp : c.d.getLast? with
+  | none => rw [hp] at h; simp at h
+  | some p =>
+    rw [hp] at h; simp at h
+    obtain ⟨rfl, rfl⟩ := h
+    simp only []
+    rw [dropLast_eq_eraseKey hi.sync.nd hp]
+    exact ⟨lookup_of_mem hi.sync.nd (List.mem_of_getLast? hp), lookup_eraseKey_self _ _ hi.sync.nd,
+      fun k' h' => lookup_eraseKey_ne h' _⟩
+
+/-- `popitem()` on an empty cache raises KeyError; `clear()` empties the cache -/
+theorem popitem_empty_clear (c : Cache K V) :
+    (c.d = [] → (step c .popitem).2 = .keyError) ∧ (step c .clear).1.d = [] ∧ (step c .clear).1.ring = [] := by
+  refine ⟨fun h => ?_, rfl, rfl⟩
+  simp [step, h]
+
+/-- inserting a NEW key into a FULL cache evicts the head of the ring — by
+    `ring_is_recency_order` the key whose latest insertion / assignment / (LRU) lookup is oldest
+    — and only it; the size stays max_size -/
+theorem full_insert_evicts_ring_head {c : Cache K V} (hi : Inv c) (k : K) (v : V)
+    (hk : lookup k c.d = none) (hfull : ¬ c.d.length < c.max) :
+    ∃ e rest, c.ring = e :: rest ∧ lookup e.1 (c.setitem k v).d = none ∧
+      (∀ k', k' ≠ e.1 → k' ≠ k → lookup k' (c.setitem k v).d = lookup k' c.d) ∧
+      lookup k (c.setitem k v).d = some v ∧ (c.setitem k v).d.length = c.d.length := by
+  obtain ⟨e, rest, h1, h2, h3, h4⟩ := setitem_evicts hi k v hk hfull
+  exact ⟨e, rest, h1, h2, h3, setitem_lookup_self hi k v, h4⟩
+
+/-- assigning to a present key, or inserting while there is room, evicts nothing -/
+theorem other_insert_evicts_nothing {c : Cache K V} (hi : Inv c) (k : K) (v : V)
+    (h : (lookup k c.d).isSome ∨ c.d.length < c.max) :
+    lookup k (c.setitem k v).d = some v ∧ ∀ k', k' ≠ k → lookup k' (c.setitem k v).d = lookup k' c.d :=
+  ⟨setitem_lookup_self hi k v, fun _ hne => setitem_keeps hi k v h hne⟩
+
+/-- a lookup that finds the key returns the stored value, counts one hit, calls nothing -/
+theorem found_is_hit {c : Cache K V} (hi : Inv c) {op : Op K V} {k : K} {v : V}
+    (hop : op.lookupKey = some k) (hk : lookup k c.d = some v) :
+    (step c op).2 = .val v ∧ (step c op).1.hit = c.hit + 1 ∧ (step c op).1.miss = c.miss ∧
+    (step c op).1.soft = c.soft ∧ (step c op).1.omLog = c.omLog ∧ (step c op).1.d = c.d :=
+  step_lookup_found hi hop hk
+
+/-- on_miss is called exactly for lookups of absent keys: `omLog` grows by `[k]` iff the
+    operation is a lookup of a key that is absent and on_miss is configured -/
+theorem on_miss_called_iff_absent {c : Cache K V} (hi : Inv c) (op : Op K V) :
+    (step c op).1.omLog = c.omLog ++
+      (match op.lookupKey with
+       | some k => if (lookup k c.d).isNone ∧ c.onMiss.isSome then [k] else []
+       | none => []) := by
+  cases hop : op.lookupKey with
+  | none => simp [(step_nonlookup c op hop).2.2.2]
+  | some k =>
+    cases hk : lookup k c.d with
+    | some v => simp [(step_lookup_found hi hop hk).2.2.2.2.1, hk]
+    | none =>
+      cases hom : c.onMiss with
+      | none => simp [(step_lookup_absent hi hop hk hom).2.2.2.2, hk, hom]
+      | some f => simp [(step_lookup_onMiss hi hop hk hom).2.2.2.2.1, hk, hom]
+
+/-- … and its result is returned and cached (one miss, no soft miss) -/
+theorem on_miss_result_cached {c : Cache K V} (hi : Inv c) {op : Op K V} {k : K} {f : K → V}
+    (hop : op.lookupKey = some k) (hk : lookup k c.d = none) (hom : c.onMiss = some f) :
+    (step c op).2 = .val (f k) ∧ lookup k (step c op).1.d = some (f k) ∧
+    (step c op).1.hit = c.hit ∧ (step c op).1.miss = c.miss + 1 ∧ (step c op).1.soft = c.soft := by
+  have := step_lookup_onMiss hi hop hk hom
+  exact ⟨this.1, this.2.2.2.2.2, this.2.1, this.2.2.1, this.2.2.2.1⟩
+
+/-- what one call adds to (hit, miss, soft_miss) according to the statement: a lookup that finds
+    the key is a hit, one that does not is a miss, and a miss answered by the caller's default
+    (get / setdefault without on_miss) is also a soft miss -/
+def delta (c : Cache K V) (op : Op K V) : Nat × Nat × Nat :=
+  match op.lookupKey with
+  | none => (0, 0, 0)
+  | some k =>
+    if (lookup k c.d).isSome then (1, 0, 0)
+    else (0, 1, if c.onMiss.isNone ∧ op.dflt.isSome then 1 else 0)
+
+/-- the lookups of a whole history on one cache, counted as the statement counts them -/
+def tally (c : Cache K V) : List (Op K V) → Nat × Nat × Nat
+  | [] => (0, 0, 0)
+  | op :: ops =>
+    ((delta c op).1 + (tally (step c op).1 ops).1,
+     (delta c op).2.1 + (tally (step c op).1 ops).2.1,
+     (delta c op).2.2 + (tally (step c op).1 ops).2.2)
+
+theorem counters_step {c : Cache K V} (hi : Inv c) (op : Op K V) :
+    (step c op).1.hit = c.hit + (delta c op).1 ∧ (step c op).1.miss = c.miss + (delta c op).2.1 ∧
+    (step c op).1.soft = c.soft + (delta c op).2.2 := by
+  unfold delta
+  cases hop : op.lookupKey with
+  | none => have := step_nonlookup c op hop; simp [this.1, this.2.1, this.2.2.1]
+  | some k =>
+    cases hk : lookup k c.d with
+    | some v => have := step_lookup_found hi hop hk; simp [this.2.1, this.2.2.1, this.2.2.2.1, hk]
+    | none =>
+      cases hom : c.onMiss with
+      | none => have := step_lookup_absent hi hop hk hom; simp [this.2.1, this.2.2.1, this.2.2.2.1, hk, hom]
+      | some f => have := step_lookup_onMiss hi hop hk hom; simp [this.2.1, this.2.2.1, this.2.2.2.1, hk, hom]
+
+/-- hit_count, miss_count and soft_miss_count equal the numbers of lookups that found the key,
+    that did not, and not-found lookups answered by a caller default — over every history -/
+theorem counters_count_lookups {c : Cache K V} (hi : Inv c) (ops : List (Op K V)) :
+    (run c ops).hit = c.hit + (tally c ops).1 ∧ (run c ops).miss = c.miss + (tally c ops).2.1 ∧
+    (run c ops).soft = c.soft + (tally c ops).2.2 := by
+  unfold run
+  induction ops generalizing c with
+  | nil => simp [tally]
+  | cons op ops ih =>
+    have h1 := counters_step hi op
+    have h2 := ih (step_inv hi op)
+    simp only [List.foldl_cons, tally]
+    omega
+
+/-- soft_miss_count ≤ miss_count always -/
+theorem soft_le_miss (lru : Bool) (max : Nat) (hmax : 1 ≤ max) (om : Option (K → V))
+    (ops : List (WOp K V)) (c : Cache K V) (hc : c ∈ reach lru max om ops) : c.soft ≤ c.miss :=
+  (reachable_inv lru max hmax om ops c hc).soft_le
+
+/-! ### copy(), |=, == -/
+
+/-- copy() yields a cache with the same class, capacity, on_miss, contents (in the same dict
+    order) and eviction order, with fresh counters … -/
+theorem copy_same_contents_and_order (c : Cache K V) :
+    ∃ n, (step c .copy).2 = .cache n ∧ n.d = c.d ∧ n.ring = c.ring ∧ n.max = c.max ∧ n.lru = c.lru ∧
+      n.onMiss = c.onMiss ∧ (n.hit, n.miss, n.soft) = (0, 0, 0) :=
+  ⟨c.copied, rfl, rfl, rfl, rfl, rfl, rfl, rfl⟩
+
+/-- … and leaves the original — contents, eviction order, counters — unchanged -/
+theorem copy_leaves_source (c : Cache K V) : (step c .copy).1 = c := rfl
+
+/-- the copy is independent: a call on one cache of the world changes no other cache -/
+theorem copy_independent (w : List (Cache K V)) (i j : Nat) (op : Op K V) (hj : j < w.length) (hne : j ≠ i) :
+    (wstep w (.on i op)).1[j]? = w[j]? := wstep_others w i op j hj hne
+
+/-- `c |= E` is `c.update(E)` (so it obeys max_size and the eviction order) -/
+theorem ior_is_update (c : Cache K V) (e : Arg K V) : step c (.ior e) = step c (.update e []) := rfl
+
+/-- the read-only calls (in, len, iteration, ==, !=, copy) change nothing -/
+theorem readers_pure (c : Cache K V) (k : K) (o : Arg K V) :
+    (step c (.contains k)).1 = c ∧ (step c .len).1 = c ∧ (step c .items).1 = c ∧
+    (step c (.eq o)).1 = c ∧ (step c (.ne o)).1 = c ∧ (step c .copy).1 = c :=
+  ⟨rfl, rfl, rfl, rfl, rfl, rfl⟩
+
+/-- `!=` is the negation of `==`; a cache equals itself -/
+theorem ne_is_not_eq (c : Cache K V) (o : Arg K V) :
+    (step c (.ne o)).2 = .bool (!c.eqArg o) ∧ (step c (.eq o)).2 = .bool (c.eqArg o) ∧
+    c.eqArg .self = true := ⟨rfl, rfl, rfl⟩
+
+/-! ### non-vacuity: concrete histories with evictions (keys, values : Nat) -/
+
+/-- LRU, max_size 2: set 1, set 2, look 1 up, set 3 -> 2 (not 1) is evicted -/
+example : (reach true 2 (none : Option (Nat → Nat))
+    [.on 0 (.setitem 1 5), .on 0 (.setitem 2 6), .on 0 (.getitem 1), .on 0 (.setitem 3 7)]).map (·.d)
+    = [[(1, 5), (3, 7)]] := by decide
+
+/-- LRI, the same history: the lookup does not count, 1 is evicted -/
+example : (reach false 2 (none : Option (Nat → Nat))
+    [.on 0 (.setitem 1 5), .on 0 (.setitem 2 6), .on 0 (.getitem 1), .on 0 (.setitem 3 7)]).map (·.d)
+    = [[(2, 6), (3, 7)]] := by decide
+
+/-- copy keeps the eviction order: after the same insert both caches evict the same key, and the
+    source's counters are untouched by the copy -/
+example : (reach true 2 (none : Option (Nat → Nat))
+    [.on 0 (.setitem 1 5), .on 0 (.setitem 2 6), .on 0 (.setitem 1 9), .on 0 .copy,
+     .on 1 (.setitem 3 7), .on 0 (.setitem 3 7)]).map (fun c => (c.d, c.hit, c.miss))
+    = [([(1, 9), (3, 7)], 0, 0), ([(1, 9), (3, 7)], 0, 0)] := by decide
+
+/-- on_miss (k ↦ 2k+1), counters: miss, hit, soft miss is only for caller defaults -/
+example : (reach false 2 (some fun k : Nat => 2 * k + 1)
+    [.on 0 (.getitem 4), .on 0 (.get 4 0), .on 0 (.get 5 0)]).map (fun c => (c.d, c.hit, c.miss, c.soft, c.omLog))
+    = [([(4, 9), (5, 11)], 1, 2, 0, [4, 5])] := by decide
+
+example : (reach true 1 (none : Option (Nat → Nat))
+    [.on 0 (.get 4 0), .on 0 (.setdefault 4 3), .on 0 (.ior (.pairs [(7, 1), (8, 2)]))]).map
+      (fun c => (c.d, c.hit, c.miss, c.soft))
+    = [([(8, 2)], 0, 2, 2)] := by decide
+
+/-- hypotheses of `full_insert_evicts_ring_head` are satisfiable: a full reachable cache -/
+example : let c := run (Cache.init true 2 (none : Option (Nat → Nat))) [.setitem 1 5, .setitem 2 6, .getitem 1]
+    lookup 3 c.d = none ∧ ¬ c.d.length < c.max ∧ c.ring = [(2, 6), (1, 5)] := by decide
+
 end C02
